@@ -1474,7 +1474,8 @@ func TestVerif_C03(t *testing.T) {
 	}
 	bufSpecs := []bufSpec{{false, 1}, {false, 2}, {false, 3}, {false, 5}, {false, 64},
 		{true, 0}, {true, 1}, {true, 2}, {true, 3}, {true, 4}, {true, 5}}
-	if r.Thorough() {
+	baseSpecs := len(bufSpecs)
+	if r.Thorough() { // the additional sizes: for programs of fewer than maxOps2 calls
 		bufSpecs = append(bufSpecs, bufSpec{false, 4}, bufSpec{false, 7}, bufSpec{true, 6}, bufSpec{true, 7})
 	}
 	bufNames := make([]string, len(bufSpecs))
@@ -1498,9 +1499,9 @@ func TestVerif_C03(t *testing.T) {
 		"x concurrent pool user in %v (a complete connection of its own on the same Server: chunked streams of 0xabc / 0x543 bytes via io.Reader / *bytes.Reader, trailer, cookie; "+
 		"gzip-compressed 404 with cookie), which is served from start to end INSIDE EVERY Write call the server makes on the connection under test (before the written bytes are taken over: a slow peer), "+
 		"so every object the response writer has returned to a pool too early, or shares, is taken and overwritten by somebody else at every point where the writer calls out; "+
-		"programs shorter than %d calls additionally with one of {method1, method2, version1, version2, gzip, pipelined, L, reader flavour} off canonical; "+
+		"programs shorter than %d calls additionally with one of {method1, method2, version1, version2, gzip, pipelined, L, reader flavour} off canonical (programs of that length: the first %d buffer sizes only); "+
 		"oracle: the same reference comparison for the connection under test, and the concurrent connection's responses must be what they are when it is served alone "+
-		"(byte comparison with Date masked, full oracle on any difference)", maxOps, len(c03Ops), names, envDev, maxOps2, bufNames, c03IntruderNames, maxOps2))
+		"(byte comparison with Date masked, full oracle on any difference)", maxOps, len(c03Ops), names, envDev, maxOps2, bufNames, c03IntruderNames, maxOps2, baseSpecs))
 	r.Assume("net/http.ReadResponse and the harness's own RFC 9112 splitter as independent HTTP/1.1 parsers (they must agree on every response)",
 		"Response.SkipBody is read as documented ('use it for writing HEAD responses'): a response built with it is parsed like a response to HEAD",
 		"automatic fields (Date, Server, Content-Type default, Content-Length, Transfer-Encoding, Connection, Content-Encoding, Vary, Trailer) are outside the header comparison; trailer fields are compared only on chunked responses",
@@ -1714,6 +1715,9 @@ func TestVerif_C03(t *testing.T) {
 				}
 				for wi, where := range place {
 					for si, bs := range bufSpecs {
+						if len(prog) == maxOps2 && si >= baseSpecs {
+							continue
+						}
 						for ii, in := range c03IntruderNames {
 							c := c03Canonical()
 							placeProg(&c, where, prog)
